@@ -148,9 +148,14 @@ impl Default for SolveOpts {
     }
 }
 
-/// Logical step budget for one solve (provider callbacks + cancellation polls). Two to three
-/// orders of magnitude above the maximum observed on the unchanged tree for generated sizes.
-pub const DEFAULT_BUDGET: u64 = 2_000_000;
+/// Logical step budget for one solve (provider callbacks + cancellation polls): about two orders
+/// of magnitude above the maximum observed on the unchanged tree for the generated sizes (the
+/// observed maximum is reported in every evidence file as `max-provider-steps-any-solve`). It is
+/// deliberately not larger: a livelock that learns one clause per round is quadratic in it.
+pub const DEFAULT_BUDGET: u64 = 30_000;
+
+/// Highest number of provider steps any single solve of this process needed (evidence).
+pub static MAX_STEPS_SEEN: std::sync::atomic::AtomicU64 = std::sync::atomic::AtomicU64::new(0);
 
 pub enum Outcome {
     Ok(Vec<u32>),
@@ -223,6 +228,7 @@ impl Session {
         self.prov().log(Ev::SolveStart(n));
         self.prov().steps.set(0);
         let r = catch(|| self.solver.solve(problem(p)));
+        MAX_STEPS_SEEN.fetch_max(self.prov().steps.get(), std::sync::atomic::Ordering::Relaxed);
         self.prov().log(Ev::SolveEnd(n));
         match r {
             Caught::Ok(Ok(v)) => Outcome::Ok(v.iter().map(|s| s.0).collect()),
